@@ -6,6 +6,16 @@ ids = [p['id'] for p in props]
 
 # id -> (category, technique, text, note, design_ref)
 CHECKS = {
+ 'C10': ('exploration',
+         'property-based testing with an adversarial name generator; validity predicate over both artifacts',
+         'Object trees whose ids are drawn from the space of names a generator could hand out for the classes present (and classes named like generated names), with buddy/actions references and dynamic bindings that reach objects by id or as `this`; the decoded .ui and the scanned header are checked for pairwise distinct names, id=name, generated names avoiding ids, every addaction/cstring/ui_-> reference denoting exactly the intended declared object, unique function names, and rejection of duplicated ids. Generated adversarial inputs are what reaches the collision cases a snapshot suite never samples.',
+         'Trusts the harness XML reader and header scanner; "derived from the class" is read loosely (prefix of the lower-cased class name with or without Q/K). Class compatibility of header references is additionally decided by compilation in C16.',
+         'DESIGN.md section 3 C10'),
+ 'C11': ('exploration',
+         'model-based property testing: expected element tree computed from the generated document model',
+         'Random legal object trees (widgets, four layouts, spacers, actions, separators, menus, bars, tab widgets, main windows; 1-60 objects, uniformly shuffled sibling order, explicit actions lists) are translated and the decoded .ui is compared node by node with the tree the statement prescribes (element kind from the metatypes\' inheritance, class attribute, <item> wrapping, sibling order, addaction sequence).',
+         'Element kinds come from the harness\' own closure over the metatypes\' superClasses; illegal nestings are only judged when accepted. Custom components are covered by C18.',
+         'DESIGN.md section 3 C11'),
  'C12': ('exploration',
          'property-based testing against a reference model of the flow rule and attribute arrays',
          'Grid, form and box layouts with 0-24 children and arbitrary optional row/column/span/alignment/stretch/minimum-size attachments are generated from choice sequences (both flows, valid and invalid column/row counts, indices at/over the bound and negative, conflicting values); a reference model written from the statement predicts every cell, span, alignment and array entry, or rejection; the .ui is decoded with an independent XML reader and compared; rejected cases need an error diagnostic inside an offending binding. Generated search with shrinking is the right level: the rule is a small state machine over child sequences that tests sample only at a handful of points.',
